@@ -455,7 +455,7 @@ func runC04(e *Env) {
 					gFalse = append(gFalse, ed.To)
 				}
 			}
-			want := fmt.Sprintf("const:%d", or.Consts["SECCOMP_RET_ERRNO"]|or.Consts["ENOSYS"])
+			want := fmt.Sprintf("const:%d", or.Consts["SECCOMP_RET_ERRNO"]|e.ENOSYS())
 			okT := len(gTrue) == 1 && gTrue[0] != nil && c.cls[gTrue[0]].Kind == "ret" && c.cls[gTrue[0]].Ret == want
 			r.Check(okT, "E1.x32", "Policy.Assemble/guard-returns-ENOSYS/"+name, nodePos(p, gnode), "x32 numbers -> ret ERRNO|ENOSYS (0x50026)", "x32 numbers do not end in `ret ERRNO|ENOSYS`: "+describeNodes(c, gTrue))
 			// false edge: the first rule / the default return; never the ENOSYS return
@@ -627,7 +627,7 @@ func runC05(e *Env) {
 		fmt.Sprintf("validation rejects argument indices above %d before emission: offsets stay within 16+8*5+4 = 60 < 64", m.facts.ArgMax),
 		fmt.Sprintf("argument indices are not bounded by 5 before emission (bounded=%v max=%d enforced=%v): a load beyond the 64-byte seccomp_data is rejected by the kernel, or a condition silently reads another field", m.facts.ArgBounded, m.facts.ArgMax, m.facts.Enforced))
 	// closed return set
-	x32 := fmt.Sprintf("const:%d", or.Consts["SECCOMP_RET_ERRNO"]|or.Consts["ENOSYS"])
+	x32 := fmt.Sprintf("const:%d", or.Consts["SECCOMP_RET_ERRNO"]|e.ENOSYS())
 	for rc := range retSet {
 		ok := rc == "act:default" || rc == "act:group" || rc == x32
 		r.Check(ok, "E1.retset", "return-value/"+rc, "", "a value the statement allows", "a return of "+rc+" is neither the default action, a group's action nor ERRNO|ENOSYS")
